@@ -315,7 +315,10 @@ FixedVArray<T>::getitem (Py_ssize_t index)
 {
     const size_t i = canonical_index (index, _length);
     std::vector<T>& data = _ptr[(_indices ? raw_ptr_index(i) : i) * _stride];
-    return FixedArray<T>(data.empty() ? nullptr : &data[0], data.size(), 1, _writable);
+    //  The row view shares ownership of the storage (_handle): views derived
+    // from it (a mask of the row, an alias made by the copy constructor)
+    // outlive this object, which the call policy alone cannot guarantee.
+    return FixedArray<T>(data.empty() ? nullptr : &data[0], data.size(), 1, _handle, _writable);
 }
 
 template <class T>
